@@ -79,6 +79,16 @@ func c16Walk(b []byte) c16Frame {
 	return f
 }
 
+// c16BufLen: natively the exact frame size; under the engine (where the
+// sample loops are cut and only the length check reads it) the largest size
+// any choice of dimensions needs, so that the length is concrete.
+func c16BufLen(exact, c int) int {
+	if vrt.Symbolic() {
+		return 65535 * c * 2
+	}
+	return exact
+}
+
 // c16Dims: one dimension over the whole 16-bit range (needs both bytes of the
 // field), the other small, so that the native replay stays small.
 func c16Dims() (int, int) {
@@ -97,7 +107,7 @@ func VerifC16Header() {
 	c := []int{1, 3}[vrt.Choice("c", 0, 1)]
 	P := vrt.Choice("P", 2, 16)
 	near := vrt.Int("near", 0, 255)
-	px := make([]byte, w*h*c*2)
+	px := make([]byte, c16BufLen(w*h*c*2, c))
 	if vrt.Symbolic() {
 		vrt.StubWith("(*"+nlPkg+".Encoder).encodeScan", func(enc *Encoder, wr *standard.Writer, p []byte) error { return nil })
 	}
@@ -112,5 +122,5 @@ func VerifC16Header() {
 	vrt.Assert(f.w == w && f.h == h, "C16 frame header declares the given width and height (both bytes)")
 	vrt.Assert(f.comp == c && f.precision == P, "C16 frame header declares the given component count and precision")
 	vrt.Assert(len(f.sos) == 1+2*c+3 && int(f.sos[0]) == c && int(f.sos[1+2*c]) == near, "C16 scan header declares the component count and the requested NEAR")
-	vrt.Out("len", len(s))
+	vrt.Out("w", f.w)
 }
